@@ -1,5 +1,4 @@
--- witness: java|javacode-missing-parentheses
--- Q: 3
+-- Qs: 1 3 9
 -- javacode.c prints a nested operator expression with parentheses only when the outer operator's
 -- precedence is strictly greater than the inner one's (jc0NeedsParens: `c1->prec > c2->prec`), and its
 -- class table gives `&`, `|`, `^` the same precedence 7 (Java: 7, 5, 6).  So a right operand of equal
